@@ -47,15 +47,164 @@ Proof.
 Qed.
 
 (* ---------- the trie ---------- *)
+Lemma t_find_in t n v m : t_find t n v = Some m -> In (n, v, m) t.
+Proof.
+  unfold t_find. destruct (find _ t) as [[[n' v'] m']|] eqn:F; [|discriminate].
+  intro H; inversion H; subst. apply find_some in F. destruct F as [F1 F2]. cbn [fst snd] in F2.
+  apply andb_true_iff in F2. destruct F2 as [A B]. apply Nat.eqb_eq in A, B. subst. exact F1.
+Qed.
+Lemma t_find_none t n v : t_find t n v = None -> ~ In (n, v) (map fst t).
+Proof.
+  unfold t_find. destruct (find _ t) as [e|] eqn:F; [discriminate|]. intros _ Hin.
+  apply in_map_iff in Hin. destruct Hin as ([[n' v'] m'] & E & Hin). cbn [fst] in E. injection E as -> ->.
+  pose proof (find_none _ _ F _ Hin) as X. cbn [fst snd] in X. rewrite !Nat.eqb_refl in X. discriminate.
+Qed.
+Lemma t_find_cons n0 v0 m0 t n v :
+  t_find ((n0, v0, m0) :: t) n v = if (n0 =? n) && (v0 =? v) then Some m0 else t_find t n v.
+Proof. unfold t_find. cbn [find fst snd]. destruct ((n0 =? n) && (v0 =? v)); reflexivity. Qed.
+Lemma t_in_find t n v m : NoDup (map fst t) -> In (n, v, m) t -> t_find t n v = Some m.
+Proof.
+  induction t as [|[[n0 v0] m0] t IH]; intros Hnd Hin; [contradiction|].
+  cbn [map fst] in Hnd. inversion Hnd as [|x l Hnotin Hnd']; subst. rewrite t_find_cons.
+  destruct Hin as [E|Hin].
+  - injection E as -> -> ->. now rewrite !Nat.eqb_refl.
+  - destruct ((n0 =? n) && (v0 =? v)) eqn:Q; [|now apply IH].
+    apply andb_true_iff in Q. destruct Q as [A B]. apply Nat.eqb_eq in A, B. subst. exfalso. apply Hnotin.
+    apply in_map_iff. exists (n, v, m). auto.
+Qed.
+Lemma t_other_false x m : t_other x m = false <-> forall m', x = Some m' -> m' = m.
+Proof.
+  unfold t_other. destruct x as [m0|].
+  - rewrite negb_false_iff, Nat.eqb_eq. split; [intros -> m' H; now injection H|auto].
+  - split; [intros _ m' H; discriminate|reflexivity].
+Qed.
+Lemma t_owned_true t n m : t_owned t n m = true <-> forall v m', In (n, v, m') t -> m' = m.
+Proof.
+  unfold t_owned. rewrite forallb_forall. split.
+  - intros H v m' Hin. specialize (H _ Hin). cbn [fst snd] in H. rewrite Nat.eqb_refl in H. now apply Nat.eqb_eq in H.
+  - intros H [[n0 v0] m0] Hin. cbn [fst snd]. destruct (n0 =? n) eqn:Q; [|reflexivity].
+    apply Nat.eqb_eq in Q. subst n0. cbn [negb orb]. apply Nat.eqb_eq. eauto.
+Qed.
+
+(* the two ways t_add succeeds *)
+Lemma t_add_inv t k m t' b : t_add t k m = Ok (t', b) ->
+  kvalid k = true /\ t_other (t_find t (knode k) 0) m = false /\
+  (kverb k = 0 -> t_owned t (knode k) m = true) /\
+  ((b = false /\ t' = t /\ t_find t (knode k) (kverb k) = Some m) \/
+   (b = true /\ t' = (knode k, kverb k, m) :: t /\ t_find t (knode k) (kverb k) = None)).
+Proof.
+  unfold t_add. destruct (kvalid k); cbn [negb]; [|discriminate].
+  destruct (t_other (t_find t (knode k) 0) m) eqn:Eo; [discriminate|].
+  destruct (kverb k =? 0) eqn:Ev.
+  - apply Nat.eqb_eq in Ev. destruct (t_owned t (knode k) m) eqn:Ew; cbn [negb]; [|discriminate].
+    rewrite Ev. destruct (t_find t (knode k) 0) as [m0|] eqn:Ef; intro H; injection H as <- <-.
+    + split; [reflexivity|]. split; [reflexivity|]. split; [reflexivity|]. left. split; [reflexivity|]. split; [reflexivity|].
+      f_equal. apply (proj1 (t_other_false _ _) Eo). reflexivity.
+    + split; [reflexivity|]. split; [reflexivity|]. split; [reflexivity|]. right. auto.
+  - apply Nat.eqb_neq in Ev. destruct (t_find t (knode k) (kverb k)) as [m0|] eqn:Ef.
+    + destruct (m0 =? m) eqn:Em; [|discriminate]. apply Nat.eqb_eq in Em. subst m0. intro H; injection H as <- <-.
+      split; [reflexivity|]. split; [reflexivity|]. split; [intro; contradiction|]. left. auto.
+    + intro H; injection H as <- <-. split; [reflexivity|]. split; [reflexivity|]. split; [intro; contradiction|]. right. auto.
+Qed.
+
 Lemma t_add_spec t k m t' b : t_add t k m = Ok (t', b) ->
   (forall e, In e t -> In e t') /\ (forall e, In e t' -> In e t \/ snd e = m).
 Proof.
-  unfold t_add. destruct (negb (kvalid k)); [discriminate|].
-  destruct (t_lookup t (knode k) (kverb k)) as [m'|].
-  - destruct (m' =? m); [|discriminate]. intro H; inversion H; subst. split; auto.
-  - intro H; inversion H; subst. split; intros e He.
+  intro H. apply t_add_inv in H. destruct H as (_ & _ & _ & [(_ & -> & _)|(_ & -> & _)]).
+  - split; auto.
+  - split; intros e He.
     + right; exact He.
     + destruct He as [<-|He]; [right; reflexivity|left; exact He].
+Qed.
+
+(* when t_add succeeds, in the vocabulary of the specification: the key is valid and every binding it
+   meets (same node; same verb, or a "*" on either side) is of this method *)
+Definition entry_key (e : nat * nat * method) : bkey := BKey (fst (fst e)) (snd (fst e)) true.
+Lemma key_meets_entry k n v m0 :
+  key_meets k (entry_key (n, v, m0)) = true <-> knode k = n /\ (kverb k = v \/ kverb k = 0 \/ v = 0).
+Proof.
+  unfold key_meets, entry_key. cbn [knode kverb fst snd].
+  rewrite andb_true_iff, !orb_true_iff, !Nat.eqb_eq. tauto.
+Qed.
+Theorem t_add_ok_iff t k m : NoDup (map fst t) ->
+  (is_ok (t_add t k m) = true <->
+   kvalid k = true /\ forall e, In e t -> key_meets k (entry_key e) = true -> snd e = m).
+Proof.
+  intro Hnd. split.
+  - destruct (t_add t k m) as [[t' b]| | |] eqn:E; try discriminate. intros _.
+    apply t_add_inv in E. destruct E as (V & Ho & Hw & Hc). split; [exact V|].
+    intros [[n v] m0] Hin Hm. cbn [snd]. apply key_meets_entry in Hm. destruct Hm as [<- Hv].
+    destruct (Nat.eq_dec v 0) as [->|Hv0].
+    { apply (proj1 (t_other_false _ _) Ho). now apply t_in_find. }
+    destruct (Nat.eq_dec (kverb k) 0) as [Hk0|Hk0].
+    { apply (proj1 (t_owned_true _ _ _) (Hw Hk0) v). exact Hin. }
+    destruct Hv as [Hv|[Hv|Hv]]; try contradiction. subst v.
+    pose proof (t_in_find _ _ _ _ Hnd Hin) as F.
+    destruct Hc as [(_ & _ & F')|(_ & _ & F')]; congruence.
+  - intros [V H]. unfold t_add. rewrite V. cbn [negb].
+    assert (Ho : t_other (t_find t (knode k) 0) m = false).
+    { apply t_other_false. intros m' F. apply t_find_in in F. apply (H _ F). apply key_meets_entry. auto. }
+    rewrite Ho. destruct (kverb k =? 0) eqn:Ev.
+    + apply Nat.eqb_eq in Ev.
+      assert (Hw : t_owned t (knode k) m = true).
+      { apply t_owned_true. intros v m' Hin. apply (H _ Hin). apply key_meets_entry. auto. }
+      rewrite Hw. cbn [negb]. destruct (t_find t (knode k) 0); reflexivity.
+    + destruct (t_find t (knode k) (kverb k)) as [m0|] eqn:F; [|reflexivity].
+      apply t_find_in in F. assert (E0 : m0 = m) by (apply (H _ F), key_meets_entry; auto).
+      subst m0. now rewrite Nat.eqb_refl.
+Qed.
+
+(* ---- the invariant of the map: keys are keys, and bindings that meet belong to one method ---- *)
+Definition t_wf (t : trie) : Prop :=
+  NoDup (map fst t) /\
+  forall e1 e2, In e1 t -> In e2 t -> key_meets (entry_key e1) (entry_key e2) = true -> snd e1 = snd e2.
+Lemma t_wf_nil : t_wf [].
+Proof. split; [constructor|intros e1 e2 []]. Qed.
+Lemma key_meets_sym a b : key_meets a b = key_meets b a.
+Proof.
+  unfold key_meets. rewrite (Nat.eqb_sym (knode a)), (Nat.eqb_sym (kverb a) (kverb b)).
+  destruct (knode b =? knode a), (kverb b =? kverb a), (kverb a =? 0), (kverb b =? 0); reflexivity.
+Qed.
+Lemma t_add_wf t k m t' b : t_wf t -> t_add t k m = Ok (t', b) -> t_wf t'.
+Proof.
+  intros [Hnd Hc] H. pose proof (proj1 (t_add_ok_iff t k m Hnd)) as Hok. rewrite H in Hok. destruct (Hok eq_refl) as [_ Hm].
+  apply t_add_inv in H. destruct H as (_ & _ & _ & [(_ & -> & _)|(_ & -> & F)]); [split; assumption|].
+  split.
+  - cbn [map fst]. constructor; [now apply t_find_none|exact Hnd].
+  - assert (Hnew : forall e, In e t -> key_meets (entry_key (knode k, kverb k, m)) (entry_key e) = true -> m = snd e).
+    { intros e He Hk. symmetry. apply (Hm e He). destruct k as [n v vl]. exact Hk. }
+    intros e1 e2 [<-|H1] [<-|H2] Hk; cbn [snd]; auto.
+    symmetry. apply (Hnew e1 H1). now rewrite key_meets_sym.
+Qed.
+Lemma t_del_wf t m : t_wf t -> t_wf (t_del t m).
+Proof.
+  intros [Hnd Hc]. split.
+  - unfold t_del. clear Hc. induction t as [|a t IH]; cbn [filter]; [constructor|].
+    cbn [map] in Hnd. inversion Hnd as [|x l Hnotin Hnd']; subst. match goal with |- context [if ?c then _ else _] => destruct c end; cbn [map]; auto.
+    constructor; auto. intro Hin. apply Hnotin. apply in_map_iff in Hin. destruct Hin as (z & E & Hz).
+    apply filter_In in Hz. apply in_map_iff. exists z. tauto.
+  - intros e1 e2 H1 H2. unfold t_del in H1, H2. apply filter_In in H1, H2. apply Hc; tauto.
+Qed.
+
+(* a key that resolves to the method already: accepted, and every key resolves as before *)
+Lemma t_add_bound t k m : t_wf t -> kvalid k = true -> t_lookup t (knode k) (kverb k) = Some m ->
+  exists t' b, t_add t k m = Ok (t', b) /\ forall n v, t_lookup t' n v = t_lookup t n v.
+Proof.
+  intros [Hnd Hc] V L.
+  assert (Hok : is_ok (t_add t k m) = true).
+  { apply (t_add_ok_iff t k m Hnd). split; [exact V|]. intros [[n v] m0] Hin Hm. cbn [snd].
+    apply key_meets_entry in Hm. destruct Hm as [<- Hv].
+    unfold t_lookup in L. destruct (t_find t (knode k) (kverb k)) as [m1|] eqn:F.
+    - injection L as ->. apply t_find_in in F. apply (Hc _ _ Hin F). apply key_meets_entry. cbn [knode kverb fst snd]. intuition.
+    - apply t_find_in in L. apply (Hc _ _ Hin L). apply key_meets_entry. cbn [knode kverb fst snd].
+      split; [reflexivity|]. right. right. reflexivity. }
+  destruct (t_add t k m) as [[t' b]| | |] eqn:E; try discriminate. exists t', b. split; [reflexivity|].
+  apply t_add_inv in E. destruct E as (_ & _ & _ & [(_ & -> & _)|(_ & -> & F)]); [reflexivity|].
+  intros n v. unfold t_lookup in *. rewrite F in L. rewrite !t_find_cons.
+  destruct (knode k =? n) eqn:En; cbn [andb]; [|reflexivity]. apply Nat.eqb_eq in En. subst n.
+  assert (Hv0 : (kverb k =? 0) = false).
+  { destruct (kverb k =? 0) eqn:Q; [|reflexivity]. apply Nat.eqb_eq in Q. rewrite Q in F. congruence. }
+  rewrite Hv0. destruct (kverb k =? v) eqn:Ev; [|reflexivity]. apply Nat.eqb_eq in Ev. subst v. now rewrite F, L.
 Qed.
 Lemma t_add_all_spec ks : forall t m t', t_add_all t ks m = Ok t' ->
   (forall e, In e t -> In e t') /\ (forall e, In e t' -> In e t \/ snd e = m).
@@ -602,12 +751,6 @@ Proof.
       apply (dispatch_live h m o' HK). rewrite C. exact Ho.
 Qed.
 
-Lemma t_find_in t n v m : t_find t n v = Some m -> In (n, v, m) t.
-Proof.
-  unfold t_find. destruct (find _ t) as [[[n' v'] m']|] eqn:F; [|discriminate].
-  intro H; inversion H; subst. apply find_some in F. destruct F as [F1 F2]. cbn [fst snd] in F2.
-  apply andb_true_iff in F2. destruct F2 as [A B]. apply Nat.eqb_eq in A, B. subst. exact F1.
-Qed.
 Lemma t_lookup_in t n v m : t_lookup t n v = Some m -> exists v', In (n, v', m) t.
 Proof.
   unfold t_lookup. destruct (t_find t n v) as [m'|] eqn:F.
@@ -728,40 +871,268 @@ Qed.
 Definition all_bound (t : trie) (ds : list mdesc) : Prop :=
   forall d k, In d ds -> In k (mkeys d) -> kvalid k = true /\ t_lookup t (knode k) (kverb k) = Some (mname d).
 
-Lemma t_add_bound t k m : kvalid k = true -> t_lookup t (knode k) (kverb k) = Some m -> t_add t k m = Ok (t, false).
-Proof. intros V L. unfold t_add. rewrite V, L, Nat.eqb_refl. reflexivity. Qed.
-Lemma t_add_all_bound t m ks :
-  (forall k, In k ks -> kvalid k = true /\ t_lookup t (knode k) (kverb k) = Some m) -> t_add_all t ks m = Ok t.
+(* the invariant of the map along every operation *)
+Lemma t_add_all_wf ks : forall t m t', t_wf t -> t_add_all t ks m = Ok t' -> t_wf t'.
 Proof.
-  induction ks as [|k ks IH]; intro H; cbn [t_add_all]; [reflexivity|].
-  rewrite t_add_bound; [| apply H; left; reflexivity ..]. cbn [bind fst].
-  apply IH. intros k' Hk. apply H. right. exact Hk.
+  induction ks as [|k ks IH]; intros t m t' W; cbn [t_add_all].
+  - intro H; injection H as <-. exact W.
+  - destruct (t_add t k m) as [[t1 b]| | |] eqn:E; cbn [bind fst]; try discriminate.
+    apply IH. eapply t_add_wf; eauto.
 Qed.
-Lemma t_add_rules_bound t m rs :
+Lemma t_add_rule_wf t r m t' : t_wf t -> t_add_rule t r m = Ok t' -> t_wf t'.
+Proof.
+  unfold t_add_rule. intro W. destruct (t_add t (rmain r) m) as [[t1 b]| | |] eqn:E; cbn [bind fst]; try discriminate.
+  apply t_add_all_wf. eapply t_add_wf; eauto.
+Qed.
+Lemma t_add_rules_wf rs : forall t m t', t_wf t -> t_add_rules t rs m = Ok t' -> t_wf t'.
+Proof.
+  induction rs as [|r rs IH]; intros t m t' W; cbn [t_add_rules].
+  - intro H; injection H as <-. exact W.
+  - destruct (t_add_rule t r m) as [t1| | |] eqn:E; cbn [bind]; try discriminate.
+    apply IH. eapply t_add_rule_wf; eauto.
+Qed.
+Lemma append_handler_wf s d h s' : t_wf (spath s) -> append_handler s d h = Ok s' -> t_wf (spath s').
+Proof.
+  unfold append_handler. intro W.
+  destruct (t_add (spath s) (BKey (mnode d) 0 true) (mname d)) as [[t1 b]| | |] eqn:E; try discriminate.
+  cbn [fst]. destruct (t_add_rules t1 (mrules d) (mname d)) as [t2| | |] eqn:E2; cbn [bind]; try discriminate.
+  intro H; injection H as <-. cbn [spath]. eapply t_add_rules_wf; [|exact E2]. eapply t_add_wf; eauto.
+Qed.
+Lemma process_wf ds : forall s o n acc r, t_wf (spath s) -> process s o ds n acc = Ok r -> t_wf (spath (fst r)).
+Proof.
+  induction ds as [|d ds IH]; intros s o n acc r W; cbn [process].
+  - intro H; injection H as <-. exact W.
+  - destruct (append_handler s d (Handler n o (mname d))) as [s1| | |] eqn:E; cbn [bind]; try discriminate.
+    apply IH. eapply append_handler_wf; eauto.
+Qed.
+Lemma drop_one_wf s hd : t_wf (spath s) -> t_wf (spath (drop_one s hd)).
+Proof.
+  intro W. unfold drop_one. destruct (filter _ (hget s (hmeth hd))); cbn [spath]; [now apply t_del_wf|exact W].
+Qed.
+Lemma drop_all_wf hds : forall s, t_wf (spath s) -> t_wf (spath (fold_left drop_one hds s)).
+Proof. induction hds as [|hd hds IH]; intros s W; cbn [fold_left]; [exact W|]. apply IH. now apply drop_one_wf. Qed.
+Lemma remove_handler_wf s c : t_wf (spath s) -> t_wf (spath (fst (remove_handler s c))).
+Proof.
+  intro W. unfold remove_handler. destruct (aget c (sconns s)) as [cl|]; cbn [fst spath]; [|exact W]. now apply drop_all_wf.
+Qed.
+Lemma add_conn_handler_wf s c d n s' : t_wf (spath s) -> add_conn_handler s c d n = Ok s' -> t_wf (spath s').
+Proof.
+  intro W. unfold add_conn_handler.
+  assert (C : forall s0, t_wf (spath s0) ->
+            (do r <- process s0 (OConn c) (dmethods d) n [];
+             Ok (State (spath (fst r)) (aset c (ConnList (snd r) (dhash d)) (sconns (fst r))) (shandlers (fst r)))) = Ok s' ->
+            t_wf (spath s')).
+  { intros s0 W0. destruct (process s0 (OConn c) (dmethods d) n []) as [r| | |] eqn:P; cbn [bind]; try discriminate.
+    intro H; injection H as <-. cbn [spath]. eapply process_wf; eauto. }
+  destruct (aget c (sconns s)) as [cl|].
+  - destruct (chash cl =? dhash d); [intro H; injection H as <-; exact W|]. apply C. now apply remove_handler_wf.
+  - now apply C.
+Qed.
+Lemma step_wf mx o : t_wf (spath (clone (published mx))) -> t_wf (spath (clone (published (fst (step mx o))))).
+Proof.
+  intro W. destruct o as [l ds|c d|c]; cbn [step].
+  - destruct (process (clone (published mx)) (OLocal l) ds (fresh mx) []) as [r| | |] eqn:P; cbn [fst published clone]; auto.
+    eapply process_wf; eauto.
+  - destruct (add_conn_handler (clone (published mx)) c d (fresh mx)) as [s'| | |] eqn:P; cbn [fst published clone]; auto.
+    eapply add_conn_handler_wf; eauto.
+  - destruct (snd (remove_handler (clone (published mx)) c)); cbn [fst published clone]; auto.
+    now apply remove_handler_wf.
+Qed.
+Lemma steps_wf h : forall mx, t_wf (spath (clone (published mx))) -> t_wf (spath (clone (published (steps mx h)))).
+Proof. induction h as [|o h IH]; intros mx W; cbn [steps]; [exact W|]. apply IH. now apply step_wf. Qed.
+(* in every published map keys are keys and bindings that meet belong to one method: the pairwise
+   condition of [unobstructed], on the map itself *)
+Theorem run_wf h : t_wf (spath (clone (published (run h)))).
+Proof. apply steps_wf. apply t_wf_nil. Qed.
+
+Lemma t_add_all_bound ks : forall t m, t_wf t ->
+  (forall k, In k ks -> kvalid k = true /\ t_lookup t (knode k) (kverb k) = Some m) ->
+  exists t', t_add_all t ks m = Ok t' /\ t_wf t' /\ forall n v, t_lookup t' n v = t_lookup t n v.
+Proof.
+  induction ks as [|k ks IH]; intros t m W H; cbn [t_add_all]; [exists t; auto|].
+  destruct (H k (or_introl eq_refl)) as [V L].
+  destruct (t_add_bound t k m W V L) as (t1 & b & E & Q). rewrite E. cbn [bind fst].
+  destruct (IH t1 m (t_add_wf _ _ _ _ _ W E)) as (t' & E' & W' & Q').
+  { intros k' Hk. destruct (H k' (or_intror Hk)) as [V' L']. split; [exact V'|]. now rewrite Q. }
+  exists t'. split; [exact E'|]. split; [exact W'|]. intros n v. now rewrite Q', Q.
+Qed.
+Lemma t_add_rules_bound rs : forall t m, t_wf t ->
   (forall k, In k (flat_map rule_keys rs) -> kvalid k = true /\ t_lookup t (knode k) (kverb k) = Some m) ->
-  t_add_rules t rs m = Ok t.
+  exists t', t_add_rules t rs m = Ok t' /\ t_wf t' /\ forall n v, t_lookup t' n v = t_lookup t n v.
 Proof.
-  induction rs as [|r rs IH]; intro H; cbn [t_add_rules]; [reflexivity|].
-  unfold t_add_rule. rewrite t_add_bound; [| apply H; cbn; left; reflexivity ..]. cbn [bind fst snd].
-  rewrite t_add_all_bound; [|intros k Hk; apply H; cbn [flat_map]; apply in_or_app; left; unfold rule_keys; right; exact Hk].
-  cbn [bind].
-  apply IH. intros k Hk. apply H. cbn [flat_map]. apply in_or_app. right. exact Hk.
+  induction rs as [|r rs IH]; intros t m W H; cbn [t_add_rules]; [exists t; auto|].
+  cbn [flat_map] in H. unfold t_add_rule.
+  destruct (t_add_all_bound (rule_keys r) t m W) as (t1 & E & W1 & Q).
+  { intros k Hk. apply H. apply in_or_app. now left. }
+  unfold rule_keys in E. cbn [t_add_all] in E.
+  destruct (t_add t (rmain r) m) as [x| | |]; cbn [bind] in E |- *; try discriminate. rewrite E. cbn [bind].
+  destruct (IH t1 m W1) as (t' & E' & W' & Q').
+  { intros k Hk. destruct (H k) as [V L]; [apply in_or_app; now right|]. split; [exact V|]. now rewrite Q. }
+  exists t'. split; [exact E'|]. split; [exact W'|]. intros n v. now rewrite Q', Q.
 Qed.
-Lemma process_bound ds : forall s o n acc, all_bound (spath s) ds ->
-  exists s', process s o ds n acc = Ok (s', acc ++ mk_handlers o ds n) /\ spath s' = spath s.
+Lemma process_bound ds : forall s o n acc, t_wf (spath s) -> all_bound (spath s) ds ->
+  exists s', process s o ds n acc = Ok (s', acc ++ mk_handlers o ds n) /\
+             forall n' v, t_lookup (spath s') n' v = t_lookup (spath s) n' v.
 Proof.
-  induction ds as [|d ds IH]; intros s o n acc B; cbn [process mk_handlers].
+  induction ds as [|d ds IH]; intros s o n acc W B; cbn [process mk_handlers].
   - exists s. rewrite app_nil_r. auto.
   - unfold append_handler.
-    destruct (B d (BKey (mnode d) 0 true)) as [_ L]; [left; reflexivity|left; reflexivity|]. cbn [knode kverb] in L.
-    rewrite t_add_bound; [|reflexivity|exact L]. cbn [fst].
-    rewrite t_add_rules_bound; [|intros k Hk; apply (B d k); [left; reflexivity|right; exact Hk]].
-    cbn [bind].
-    destruct (IH (State (spath s) (sconns s) (aset (mname d) (hget s (mname d) ++ [Handler n o (mname d)]) (shandlers s)))
-                 o (S n) (acc ++ [Handler n o (mname d)])) as (s' & P & E).
-    { intros d' k Hd Hk. apply (B d' k); [right; exact Hd|exact Hk]. }
-    exists s'. rewrite P, <- app_assoc. split; [reflexivity|exact E].
+    destruct (t_add_rules_bound (Rule (BKey (mnode d) 0 true) [] :: mrules d) (spath s) (mname d) W) as (t2 & E & W2 & Q).
+    { intros k Hk. apply (B d k); [left; reflexivity|]. unfold mkeys. cbn [flat_map rule_keys rmain radd app] in Hk. exact Hk. }
+    cbn [t_add_rules] in E. unfold t_add_rule at 1 in E. cbn [rmain radd t_add_all] in E.
+    destruct (t_add (spath s) (BKey (mnode d) 0 true) (mname d)) as [x| | |]; cbn [bind] in E; try discriminate.
+    rewrite E. cbn [bind].
+    destruct (IH (State t2 (sconns s) (aset (mname d) (hget s (mname d) ++ [Handler n o (mname d)]) (shandlers s)))
+                 o (S n) (acc ++ [Handler n o (mname d)])) as (s' & P & Q').
+    { exact W2. }
+    { intros d' k Hd Hk. cbn [spath]. destruct (B d' k (or_intror Hd) Hk) as [V L]. split; [exact V|]. now rewrite Q. }
+    exists s'. rewrite P, <- app_assoc. split; [reflexivity|]. intros n' v. rewrite Q'. cbn [spath]. apply Q.
 Qed.
+
+
+(* ---------- when a registration is accepted: [unobstructed], against the bindings of the map ---------- *)
+(* The specification Registry.unobstructed T ds takes "theirs" from the descriptors of the live table T.
+   The exact law takes them from the published map: the rules of a method stay in the trie until its
+   last handler goes, whichever registration brought them (unobstructed_live_table_insufficient). *)
+Definition trie_keys (t : trie) : list (bkey * method) := map (fun e => (entry_key e, snd e)) t.
+Definition unobstructed_in (theirs : list (bkey * method)) (ds : list mdesc) : bool :=
+  let mine := bound_keys ds in
+  forallb (fun km => kvalid (fst km) &&
+             forallb (fun km' => negb (key_meets (fst km) (fst km')) || (snd km =? snd km')) (mine ++ theirs)) mine.
+Lemma unobstructed_eq T ds : unobstructed T ds = unobstructed_in (flat_map (fun x => bound_keys (snd x)) T) ds.
+Proof. reflexivity. Qed.
+
+Definition Unob (theirs mine : list (bkey * method)) : Prop :=
+  forall km, In km mine -> kvalid (fst km) = true /\
+    forall km', In km' (mine ++ theirs) -> key_meets (fst km) (fst km') = true -> snd km = snd km'.
+Lemma unobstructed_in_Unob theirs ds : unobstructed_in theirs ds = true <-> Unob theirs (bound_keys ds).
+Proof.
+  unfold unobstructed_in, Unob. rewrite forallb_forall. split.
+  - intros H km Hin. specialize (H km Hin). apply andb_true_iff in H. destruct H as [V H]. split; [exact V|].
+    rewrite forallb_forall in H. intros km' Hin' Hm. specialize (H km' Hin'). cbv beta in H. apply orb_true_iff in H. destruct H as [H|H]; [|now apply Nat.eqb_eq].
+    apply negb_true_iff in H. exfalso. revert H Hm. unfold method. intros H Hm. rewrite H in Hm. discriminate.
+  - intros H km Hin. destruct (H km Hin) as [V C]. apply andb_true_iff. split; [exact V|]. apply forallb_forall. intros km' Hin'.
+    apply orb_true_iff. destruct (key_meets (fst km) (fst km')) eqn:Hm; [right|left; reflexivity].
+    apply Nat.eqb_eq. now apply C.
+Qed.
+
+Fixpoint t_add_keys (t : trie) (kms : list (bkey * method)) : outcome trie :=
+  match kms with
+  | [] => Ok t
+  | km :: r => do x <- t_add t (fst km) (snd km); t_add_keys (fst x) r
+  end.
+Lemma t_add_keys_app a : forall b t, t_add_keys t (a ++ b) = (do t1 <- t_add_keys t a; t_add_keys t1 b).
+Proof.
+  induction a as [|km a IH]; intros b t; [reflexivity|]. cbn [app t_add_keys].
+  destruct (t_add t (fst km) (snd km)) as [x| | |]; cbn [bind]; [apply IH|reflexivity|reflexivity|reflexivity].
+Qed.
+Lemma t_add_all_keys ks : forall t m, t_add_all t ks m = t_add_keys t (map (fun k => (k, m)) ks).
+Proof.
+  induction ks as [|k ks IH]; intros t m; [reflexivity|]. cbn [t_add_all map t_add_keys fst snd].
+  destruct (t_add t k m) as [x| | |]; cbn [bind]; [apply IH|reflexivity|reflexivity|reflexivity].
+Qed.
+Lemma t_add_rules_keys rs : forall t m, t_add_rules t rs m = t_add_keys t (map (fun k => (k, m)) (flat_map rule_keys rs)).
+Proof.
+  induction rs as [|r rs IH]; intros t m; [reflexivity|]. cbn [t_add_rules flat_map]. rewrite map_app, t_add_keys_app.
+  assert (E : t_add_rule t r m = t_add_keys t (map (fun k => (k, m)) (rule_keys r))).
+  { unfold t_add_rule, rule_keys. cbn [map t_add_keys fst snd].
+    destruct (t_add t (rmain r) m) as [x| | |]; cbn [bind]; [apply t_add_all_keys|reflexivity|reflexivity|reflexivity]. }
+  rewrite E. destruct (t_add_keys t (map (fun k => (k, m)) (rule_keys r))) as [t1| | |]; cbn [bind]; [apply IH|reflexivity|reflexivity|reflexivity].
+Qed.
+Lemma t_add_benign t k m : match t_add t k m with Ok _ | Err _ => True | _ => False end.
+Proof.
+  unfold t_add. destruct (negb (kvalid k)); [exact I|]. destruct (t_other _ m); [exact I|].
+  destruct (kverb k =? 0).
+  - destruct (negb (t_owned t (knode k) m)); [exact I|]. destruct (t_find t (knode k) 0); exact I.
+  - destruct (t_find t (knode k) (kverb k)) as [m'|]; [destruct (m' =? m)|]; exact I.
+Qed.
+Definition otrie {A} (f : A -> trie) (r : outcome A) : outcome trie :=
+  match r with Ok s => Ok (f s) | Err e => Err e | Panic p => Panic p | OutOfFuel => OutOfFuel end.
+Lemma append_handler_keys s d h :
+  otrie spath (append_handler s d h) = t_add_keys (spath s) (map (fun k => (k, mname d)) (mkeys d)).
+Proof.
+  unfold append_handler, mkeys. cbn [map t_add_keys fst snd].
+  pose proof (t_add_benign (spath s) (BKey (mnode d) 0 true) (mname d)) as B.
+  destruct (t_add (spath s) (BKey (mnode d) 0 true) (mname d)) as [x|e| |]; cbn [bind otrie]; try contradiction; [|reflexivity].
+  rewrite <- t_add_rules_keys. destruct (t_add_rules (fst x) (mrules d) (mname d)); reflexivity.
+Qed.
+Lemma process_keys ds : forall s o n acc,
+  otrie (fun r => spath (fst r)) (process s o ds n acc) = t_add_keys (spath s) (bound_keys ds).
+Proof.
+  induction ds as [|d ds IH]; intros s o n acc; [reflexivity|].
+  cbn [process]. unfold bound_keys. cbn [flat_map]. rewrite t_add_keys_app, <- (append_handler_keys s d (Handler n o (mname d))).
+  destruct (append_handler s d (Handler n o (mname d))) as [s1| | |]; cbn [bind otrie]; [apply IH|reflexivity|reflexivity|reflexivity].
+Qed.
+
+Lemma key_meets_norm x k : key_meets x (BKey (knode k) (kverb k) true) = key_meets x k.
+Proof. reflexivity. Qed.
+Lemma trie_keys_in t e : In e t -> In (entry_key e, snd e) (trie_keys t).
+Proof. intro H. unfold trie_keys. apply in_map_iff. exists e. auto. Qed.
+
+Theorem t_add_keys_ok_iff kms : forall t, t_wf t -> (is_ok (t_add_keys t kms) = true <-> Unob (trie_keys t) kms).
+Proof.
+  induction kms as [|[k m] kms IH]; intros t W; cbn [t_add_keys fst snd].
+  - split; [intros _ km []|reflexivity].
+  - pose proof (t_add_ok_iff t k m (proj1 W)) as Hok.
+    destruct (t_add t k m) as [[t1 b]| | |] eqn:E; cbn [bind fst is_ok] in *.
+    2,3,4: split; [discriminate|]; intro U; apply Hok; destruct (U (k, m) (or_introl eq_refl)) as [V C]; split; [exact V|];
+           intros e0 He Hm; symmetry; apply (C (entry_key e0, snd e0)); [right; apply in_or_app; right; now apply trie_keys_in|exact Hm].
+    destruct (proj1 Hok eq_refl) as [V Hcl].
+    pose proof (t_add_wf _ _ _ _ _ W E) as W1. pose proof (t_add_spec _ _ _ _ _ E) as [Sub _].
+    assert (Hk1 : In (BKey (knode k) (kverb k) true, m) (trie_keys t1)).
+    { apply t_add_inv in E. destruct E as (_ & _ & _ & [(_ & -> & F)|(_ & -> & _)]).
+      - apply t_find_in in F. exact (trie_keys_in _ _ F).
+      - left. reflexivity. }
+    rewrite (IH t1 W1). split.
+    + intros U km [<-|Hin]; cbn [fst snd].
+      * split; [exact V|]. intros km' Hin' Hm. cbn [app] in Hin'. destruct Hin' as [<-|Hin']; [reflexivity|].
+        apply in_app_or in Hin'. destruct Hin' as [Hin'|Hin'].
+        -- destruct (U km' Hin') as [_ C]. symmetry. apply (C _ (in_or_app _ _ _ (or_intror Hk1))).
+           cbn [fst]. now rewrite key_meets_norm, key_meets_sym.
+        -- unfold trie_keys in Hin'. apply in_map_iff in Hin'. destruct Hin' as (e & <- & He). cbn [fst snd] in *.
+           symmetry. now apply Hcl.
+      * destruct (U km Hin) as [V' C]. split; [exact V'|]. intros km' Hin' Hm. cbn [app] in Hin'. destruct Hin' as [<-|Hin'].
+        -- apply (C _ (in_or_app _ _ _ (or_intror Hk1))). cbn [fst] in *. now rewrite key_meets_norm.
+        -- apply in_app_or in Hin'. destruct Hin' as [Hin'|Hin']; [apply C; [apply in_or_app; now left|exact Hm]|].
+           apply C; [|exact Hm]. apply in_or_app. right. unfold trie_keys in *. apply in_map_iff in Hin'.
+           destruct Hin' as (e & <- & He). apply in_map_iff. exists e. auto.
+    + intros U km Hin. destruct (U km (or_intror Hin)) as [V' C]. split; [exact V'|]. intros km' Hin' Hm.
+      apply in_app_or in Hin'. destruct Hin' as [Hin'|Hin'].
+      * apply C; [right; apply in_or_app; now left|exact Hm].
+      * unfold trie_keys in Hin'. apply in_map_iff in Hin'. destruct Hin' as (e & <- & He). cbn [fst snd] in *.
+        assert (Hold : In e t -> snd km = snd e).
+        { intro He0. apply (C (entry_key e, snd e)); [right; apply in_or_app; right; now apply trie_keys_in|exact Hm]. }
+        apply t_add_inv in E. destruct E as (_ & _ & _ & [(_ & -> & _)|(_ & -> & _)]); [now apply Hold|].
+        destruct He as [<-|He0]; [|now apply Hold]. cbn [snd].
+        apply (C (k, m)); [left; reflexivity|]. cbn [fst]. unfold entry_key in Hm. cbn [fst snd] in Hm. now rewrite key_meets_norm in Hm.
+Qed.
+
+(* registerService / the method loop of RegisterConn is accepted exactly when the registration is
+   unobstructed by the bindings of the map it starts from *)
+Theorem process_ok_iff s o ds n acc : t_wf (spath s) ->
+  (is_ok (process s o ds n acc) = true <-> unobstructed_in (trie_keys (spath s)) ds = true).
+Proof.
+  intro W. rewrite unobstructed_in_Unob, <- (t_add_keys_ok_iff (bound_keys ds) (spath s) W), <- (process_keys ds s o n acc).
+  destruct (process s o ds n acc); reflexivity.
+Qed.
+Theorem reglocal_ok_iff h l ds :
+  snd (step (run h) (RegLocal l ds)) = ROk <->
+  unobstructed_in (trie_keys (spath (clone (published (run h))))) ds = true.
+Proof.
+  rewrite <- (process_ok_iff (clone (published (run h))) (OLocal l) ds (fresh (run h)) [] (run_wf h)).
+  cbn [step]. destruct (process (clone (published (run h))) (OLocal l) ds (fresh (run h)) []); cbn [snd is_ok]; split; congruence.
+Qed.
+
+(* the live table is not enough: method 1 is still served by connection 1, so its rule at (5, GET) --
+   brought by connection 0, which is gone -- still stands, and method 2 cannot take that key *)
+Example unobstructed_live_table_insufficient :
+  let h := [RegConn 0 (Desc 1 [MDesc 1 1 [Rule (BKey 5 1 true) []]]); RegConn 1 (Desc 2 [MDesc 1 1 []]); DropConn 0] in
+  let ds := [MDesc 2 2 [Rule (BKey 5 1 true) []]] in
+  map snd (trace h) = [ROk; ROk; RTrue] /\
+  unobstructed (live_table (trace h)) ds = true /\
+  snd (step (run h) (RegLocal 0 ds)) = RErr /\
+  unobstructed_in (trie_keys (spath (clone (published (run h))))) ds = false.
+Proof. vm_compute. repeat split; reflexivity. Qed.
 
 Lemma second_backend h c d : hash_ok (h ++ [RegConn c d]) ->
   conn_entries (live_table (trace h)) c = [] ->
@@ -775,7 +1146,7 @@ Proof.
   assert (HKh : hash_ok h).
   { intros d1 d2 H1 H2. apply HK; unfold descs_of in *; rewrite flat_map_app; apply in_or_app; left; assumption. }
   pose proof (proj2 (conn_known h c HKh) E) as Hc.
-  destruct (process_bound (dmethods d) (clone (published (run h))) (OConn c) (fresh (run h)) [] B) as (s' & P & Et).
+  destruct (process_bound (dmethods d) (clone (published (run h))) (OConn c) (fresh (run h)) [] (run_wf h) B) as (s' & P & Et).
   assert (R : snd (step (run h) (RegConn c d)) = ROk).
   { cbn [step]. unfold add_conn_handler. rewrite Hc, P. reflexivity. }
   split; [exact R|]. split.
